@@ -1044,7 +1044,15 @@ impl Entity {
                 }
             }
         }
+        // the new fields are numbered in the order of the model text (the position given by the parser),
+        // not in the iteration order of the HashMap
+        let mut new_fields: Vec<(usize, (String, Field))> = Vec::with_capacity(new_entity.fields.len());
         for field in new_entity.fields {
+            let pos: usize = field.1.short_name.parse()?;
+            new_fields.push((pos, field));
+        }
+        new_fields.sort_by_key(|f| f.0);
+        for (_, field) in new_fields {
             if !field.1.nullable && field.1.default_value.is_none() {
                 match field.1.field_type {
                     FieldType::Array(_) | FieldType::Entity(_) => {}
